@@ -51,6 +51,11 @@ def back_to_flat(fmts):
 
 
 def value_ok(val, sv):
+    if sv[0] == 'str' and sv[1] and not any(sv[1]):
+        # all NUL octets: the decoder's rendering of such a field is its own choice (b'' from a compressed column whose
+        # minimum is zero); C09 asks that the FORMATS agree on it and encode alike, which is checked below
+        v = val.encode('latin-1') if isinstance(val, str) else val
+        return v in (b'', sv[1])
     if isinstance(val, str) and sv[0] == 'str':
         return val.encode('latin-1') == sv[1]
     return fm94.impl_matches(val, sv)
@@ -259,12 +264,15 @@ def run(run):
                 ('struct', cat['struct'], dict(subset_counts=(1, 2) if thorough else (1,), fmax=2, seeds=((r + 1) % 5,))),
                 ('bitmap', cat['bitmap'], dict(subset_counts=(1, 2) if thorough else (2,), fmax=2, seeds=((r + 2) % 5,))),
                 ('plain', cat['plain'], dict(subset_counts=(2,), seeds=((r + 3) % 5,), compressions=(False, True) if thorough else (r % 2 == 0,))),
+                # character fields of NUL octets in every subset of a compressed message (position 4 carries the same class in
+                # all subsets; with value seed 1 that class is the "blank" one, here NUL): decoded as the empty string
+                ('nul strings', [[12001, 2001, 1001, 1015, 1008], [1001, 1001, 1001, 1008]], dict(subset_counts=(2, 3), seeds=(1,), compressions=(True,), nul=True)),
                 ('rnd_plain', cat['rnd_plain'], dict(subset_counts=(1,), seeds=((r + 4) % 5,), compressions=(r % 2 == 1,))),
                 ('rnd_struct', cat['rnd_struct'], dict(subset_counts=(2,) if thorough else (1,), fmax=2, seeds=(r,))),
                 ('rnd_bitmap', cat['rnd_bitmap'], dict(subset_counts=(2,), fmax=2, seeds=((r + 1) % 5,), compressions=(False, True) if thorough else (False,)))]
         cli_pick = []
         for label, templates, kw in plan:
-            res = tree.gen_run(wd, 'MC_c09_' + label, templates, slices=(), path_depth=0, **kw)
+            res = tree.gen_run(wd, 'MC_c09_' + label.replace(' ', '_'), templates, slices=(), path_depth=0, **kw)
             if res.violated:
                 run.violation(('spec', res.violated, label), 'specification property %s violated' % res.violated, tlc.error_trace(res))
             run.add_tlc(res, 'FM94Tree (hierarchical view) ' + label)
